@@ -541,7 +541,7 @@ def tdb_rules(ctx, A):
             if is_call(strip(a), 'util::lcm') and isA(b):
                 g3.append((g, op, strip(a)))
     ok3 = len(g3) == 1 and g3[0][1] == 'Gt'
-    ctx.ob(['C02', 'C03', 'C01'], 'R-GUARD', 'G3|alignment-at-least-fields', ok3, 'lcm(field alignments) > alignment ⇒ Err, strictly (found %s)' % [(op, show(a)[:60]) for g, op, a in g3],
+    ctx.ob(['C02', 'C03', 'C01', 'C13'], 'R-GUARD', 'G3|alignment-at-least-fields', ok3, 'lcm(field alignments) > alignment ⇒ Err, strictly (found %s)' % [(op, show(a)[:60]) for g, op, a in g3],
            g3[0][0].where() if g3 else where)
     if g3:
         g, op, lc = g3[0]
@@ -609,7 +609,7 @@ def tdb_rules(ctx, A):
     # G15 effective alignment is a power of two (in particular non-zero)
     g15 = [g for g in gs if g.kind == 'reject' and find_calls(g.pred, 'is_power_of_two') and any(isA(x) for c in find_calls(g.pred, 'is_power_of_two') for x in c[2])]
     ok15 = len(g15) >= 1 and covers_all_paths(tdb, g15[0], exempt_edges=ptrue)
-    ctx.ob(['C03', 'C02'], 'R-GUARD', 'G15|alignment-power-of-two', ok15,
+    ctx.ob(['C03', 'C02', 'C13'], 'R-GUARD', 'G15|alignment-power-of-two', ok15,
            'the effective alignment must be tested to be a power of two (rustc accepts nothing else in align(N); N = 0 divides by zero) before Ok(Some(..)); ' +
            ('found' if ok15 else 'no such test dominates the success return'), g15[0].where() if g15 else where)
     # G6 packed & align
@@ -1066,7 +1066,7 @@ def plumbing(ctx):
                 q = strip(vs[0][1])
                 ok = q[0] == 'field' and q[2] == nm and strip(q[1])[0] == 'try' and is_call(strip(strip(q[1])[1]), 'ItemDefinition::resolved') and \
                     strip(strip(strip(q[1])[1])[2][0])[0] == 'arg'
-        ob(['C01', 'C02'], 'ItemDefinition::' + nm, ok, 'ItemDefinition::%s() is the resolved state\'s `%s` field' % (nm, nm), f)
+        ob(['C01', 'C02', 'C10'], 'ItemDefinition::' + nm, ok, 'ItemDefinition::%s() is the resolved state\'s `%s` field (None for anything unresolved: by-value embedding waits for the embedded type)' % (nm, nm), f)
     f = one('types::ItemDefinition::resolved')
     okr = False
     if f:
